@@ -103,7 +103,9 @@ func runC19(c *Ctx) {
 	for _, d := range disp {
 		var cls []ir.Clause
 		cls = append(cls, clause("strict="+fmt.Sprint(d.strict == 1), ir.E(d.strict == 1, `^%strict$`)))
-		cls = append(cls, clause("wildcard="+fmt.Sprint(d.wc == 1), ir.E(d.wc == 1, isW)))
+		if d.pfx != 1 { // match == prefix already excludes wildcard (one value), whichever is tested first
+			cls = append(cls, clause("wildcard="+fmt.Sprint(d.wc == 1), ir.E(d.wc == 1, isW)))
+		}
 		if d.pfx >= 0 {
 			cls = append(cls, clause("prefix="+fmt.Sprint(d.pfx == 1), ir.E(d.pfx == 1, isP)))
 		}
@@ -145,11 +147,12 @@ func runC19(c *Ctx) {
 	c.Has(r3, nx, "returns the counter", `^return:%g\.next$`, 1)
 	c.Has(r3, "wamp.(*SyncIDGen).Next", "synchronised generator delegates under its lock", `^call:wamp\.\(\*IDGen\)\.Next\(%g\.&IDGen\)$`, 1)
 	c.Before(r3, "wamp.(*SyncIDGen).Next", "lock before next", `^call:\(\*sync\.Mutex\)\.Lock\(%g\.&lock\)$`, `^call:wamp\.\(\*IDGen\)\.Next\(`)
-	c.Has(r3, "wamp.GlobalID", "random id in [1, 2^53]", `^return:\(conv:uint64\(call:wamp\.secureInt63n\(9007199254740992\)\) \+ 1\)$`, 1)
+	// (the bounded random draw is a helper over crypto/rand.Int, or that call itself)
+	c.Has(r3, "wamp.GlobalID", "random id in [1, 2^53]", `^return:\(conv:uint64\((call:wamp\.secureInt63n\(9007199254740992\)|call:\(\*math/big\.Int\)\.Int64\(call:crypto/rand\.Int\(\*g:crypto/rand\.Reader, call:math/big\.NewInt\(9007199254740992\)\)#0\))\) \+ 1\)$`, 1)
 	in := "wamp.(*Session).IsNewRecvID"
 	c.Guard(r3, in, "any accepting answer", `^return:true$|^return:\(\(9007199254740992 - \(%s\.lastRecvID - %id\)\) < 500\)$`, 3,
 		clause("id is not 0", F(`^\(%id == 0\)$`)), clause("id at most 2^53", F(`^\(9007199254740992 < %id\)$`)))
-	c.Has(r3, in, "wrap-around window expression", `^return:\(\(9007199254740992 - \(%s\.lastRecvID - %id\)\) < 500\)$`, 1)
+	c.Has(r3, in, "wrap-around window expression", `^(return|val):\(\(9007199254740992 - \(%s\.lastRecvID - %id\)\) < 500\)$`, 1)
 	c.Guard(r3, in, "window applies only to smaller ids", `^return:\(\(9007199254740992 - `, 1, clause("not larger than last", F(`^\(%s\.lastRecvID < %id\)$`)), clause("not equal to last", F(`^\(%id == %s\.lastRecvID\)$`)),
 		clause("some id seen before", F(`^\(%s\.lastRecvID == 0\)$`)))
 	// session id generator is the synchronised one
